@@ -556,7 +556,9 @@ def views_2d(kind, cfg, h, ref, when):  # noqa: PLR0912, PLR0915
     # generic grid
     from histogrammar.plot.hist_numpy import get_2dgrid  # noqa: PLC0415
 
-    xl, yl, g2 = get_2dgrid(h)
+    res = get_2dgrid(h)
+    require(isinstance(res, tuple) and len(res) == 3, "grid2-not-a-grid", f"{what}: get_2dgrid returned {res!r} for a two-dimensional histogram (n_dim = {h.n_dim})", sig)
+    xl, yl, g2 = res
     g2 = np.asarray(g2)
     require(g2.shape == (len(yl), len(xl)), "grid2-shape", f"{what}: get_2dgrid shape {g2.shape} for {len(xl)} x / {len(yl)} y labels", sig)
     if kind != "IrregularlyBin":
